@@ -520,7 +520,29 @@ fn edits(r: &mut Rng, p: Prog, bytes: &[u8], trunc_all_below: usize, per_kind: u
         };
         e.push(Edit::Raw(raw));
     }
+    // near-miss selectors in front of this value's payload (five per value, cycling through all 124 name / version combinations)
+    for _ in 0..5 {
+        let k = r.below(124) as usize; let sel = near_miss_selector(k);
+        e.push(Edit::Raw(sel.clone()));                                                      // alone (the payload-free instructions)
+        let mut v = sel; v.extend_from_slice(&bytes[8.min(len)..]); e.push(Edit::Raw(v));    // in front of this value's payload
+    }
     e
+}
+
+/// Near-miss selectors: the hash of every instruction name of the three programs with and without a version suffix. Those the
+/// encoders really use are valid; every other one is an unknown selector and must be refused (a decoder arm that accepts a
+/// "compatibility" selector the encoder never emits would be found here).
+const IX_NAMES: [&str; 31] = ["initialize_program", "migrate_program_accounts", "set_admin", "configure_program", "initialize_journal",
+    "initialize_distribution", "configure_distribution_debt", "finalize_distribution_debt", "configure_distribution_rewards",
+    "finalize_distribution_rewards", "distribute_rewards", "initialize_contributor_rewards", "set_rewards_manager",
+    "configure_contributor_rewards", "verify_distribution_merkle_root", "initialize_solana_validator_deposit", "pay_solana_validator_debt",
+    "enable_solana_validator_debt_write_off", "write_off_solana_validator_debt", "initialize_swap_destination", "withdraw_sol",
+    "sweep_distribution_tokens", "request_access", "grant_access", "deny_access", "configure_journal", "initialize_fills_registry",
+    "buy_sol", "dequeue_fills", "forgive_solana_validator_debt", "configure_distribution_rewards_v1"];
+fn near_miss_selector(k: usize) -> Vec<u8> {
+    let name = IX_NAMES[k % IX_NAMES.len()];
+    let suffix = ["", "::v1", "::v0", "::v2"][(k / IX_NAMES.len()) % 4];
+    solana_sdk::hash::hashv(&[b"dz::ix::", name.as_bytes(), suffix.as_bytes()]).to_bytes()[..8].to_vec()
 }
 
 fn hex(b: &[u8]) -> String { b.iter().map(|x| format!("{:02x}", x)).collect() }
